@@ -192,7 +192,14 @@ def std_filler(g, f, rep, where, calls_of):
         eff = effects(lam["body"])
         conv = r"&0\.operator [\w ]+\(\)"
         if cont == "array":
-            pat = r"\(\+\+\$1\[\(%s \* \(\(\$1\.size\(\) - 1\) / max\(\)\)\)\]\)" % conv
+            # the scale is either written in place or a local that is assigned once (the size of a std::array never changes)
+            SC = r"\(\(\$1\.size\(\) - 1\) / max\(\)\)"
+            pat = r"\(\+\+\$1\[\(%s \* (%s|%%\d+)\)\]\)" % (conv, SC)
+            mm = re.fullmatch(pat, eff[0][0]) if len(eff) == 1 else None
+            if mm and mm.group(1).startswith("%"):
+                dv = decls_of(g["body"]).get(mm.group(1))
+                if not g["canon_single"].get(mm.group(1)) or dv is None or not re.fullmatch(SC, R.key(dv)):
+                    prob.append("scale %s = %s, expected (size-1)/max assigned once" % (mm.group(1), R.key(dv) if dv is not None else None))
             if loops and lims != {"std::numeric_limits<%s>" % chan}:
                 prob.append("scale uses %s but the converted channel is %s" % (sorted(lims), chan))
         else:
@@ -294,17 +301,24 @@ def run(rep):
                 eff = effects(loops[1]["body"])
                 incs = [(k, x, p) for k, x, p in eff if "operator[](" in k and (k.endswith("++)") or k.startswith("(++") or " += 1)" in k)]
                 env = None
+                decl = {k: (R.key(v) if v is not None else None) for k, v in decls_of(g["body"]).items()}
+                decl_line = {dd["name"]: (x.get("line") or 0) for x, _ in R.find(g["body"], lambda x: x.get("k") == "Decl") for dd in x["decls"] if dd.get("name")}
+                keyexpr = None
                 for k, x, p in incs:
-                    m = re.fullmatch(r"\((?:\+\+)?(?:this\.)?operator\[\]\((?:this\.)?key_from_pixel\((%\d+)\)\)(?:\+\+| \+= 1)?\)", k)
-                    if m:
-                        env = {"P": m.group(1)}
+                    m = re.fullmatch(r"\((?:\+\+)?(?:this\.)?operator\[\]\((.*?)\)(?:\+\+| \+= 1)?\)", k)
+                    if not m:
+                        continue
+                    keyexpr = m.group(1)
+                    kdef = decl.get(keyexpr) if re.fullmatch(r"%\d+", keyexpr) and g["canon_single"].get(keyexpr) else keyexpr
+                    m2 = re.fullmatch(r"(?:this\.)?key_from_pixel\((%\d+)\)", kdef or "")
+                    if m2:
+                        env = {"P": m2.group(1)}
                 if len(incs) != 1 or env is None:
                     prob.append("bin updates %s, expected one increment of bin[key_from_pixel(scaled pixel)]" % [k for k, _, _ in incs])
                 else:
-                    decl = {k: (R.key(v) if v is not None else None) for k, v in decls_of(g["body"]).items()}
                     if decl.get(env["P"]) != "$0.row_begin(%s)[%s]" % (yv, xv):
                         prob.append("the counted pixel is %s, expected $0.row_begin(y)[x]" % decl.get(env["P"]))
-                    KEY = r"(?:this\.)?key_from_pixel\(%s\)" % re.escape(env["P"])
+                    KEY = re.escape(keyexpr)
                     ren = lambda a: "applymask" if a == "$2" else "m" if a == "$3[%s][%s]" % (yv, xv) else "setlimits" if a == "$6" else \
                         "lo" if re.fullmatch(r"tuple_compare\(\$4,%s\)" % KEY, a) else "hi" if re.fullmatch(r"tuple_compare\(%s,\$5\)" % KEY, a) else a
                     conts = [(x, p) for x, p in R.find(loops[1]["body"], lambda x: x.get("k") == "Continue")]
@@ -318,9 +332,13 @@ def run(rep):
                     scal = [k for k, x, p in eff if any(a.get("k") == "Lambda" for a, _, _ in p)]
                     if scal != ["(&0 = (&0 / $1))"] and scal != ["(&0 /= $1)"]:
                         prob.append("channel scaling %s" % scal)
-                    sfe = [R.key(c) for c, _ in R.calls_in(loops[1]["body"], lambda n: n.endswith("static_for_each"))]
-                    if sfe != ["static_for_each(%s,Lambda)" % env["P"]]:
-                        prob.append("scaling applied to %s" % sfe)
+                    sfe = [(R.key(c), c.get("line") or 0) for c, _ in R.calls_in(loops[1]["body"], lambda n: n.endswith("static_for_each"))]
+                    if [k for k, _ in sfe] != ["static_for_each(%s,Lambda)" % env["P"]]:
+                        prob.append("scaling applied to %s" % [k for k, _ in sfe])
+                    elif keyexpr in decl_line and decl_line[keyexpr] <= sfe[0][1]:
+                        prob.append("the key is built before the channels are divided by bin_width")
+                    elif keyexpr not in decl_line and incs[0][1].get("line", 0) <= sfe[0][1]:
+                        prob.append("the bin is incremented before the channels are divided by bin_width")
                     ifn = enclosing_if([q for q in incs[0][2] if True])
                     inner = [a for a, fld, _ in incs[0][2] if a.get("k") == "If"]
                     ifn = inner[-1] if inner else None
